@@ -48,9 +48,19 @@ def setup_repo_import():
 DRIVERS: dict = {}
 
 
-def driver(name):
+DRIVER_TIMEOUT = {}          # seconds after which a case counts as "did not terminate"
+CASE_TIMEOUT = int(os.environ.get("VERIF_CASE_TIMEOUT", "600"))
+
+
+class CaseTimeout(Exception):
+    pass
+
+
+def driver(name, timeout=None):
     def deco(fn):
         DRIVERS[name] = fn
+        if timeout:
+            DRIVER_TIMEOUT[name] = timeout
         return fn
     return deco
 
@@ -93,10 +103,23 @@ def _run_chunk(chunk):
     if _ctx is None:
         _worker_init()
     out = []
+    def _alarm(signum, frame):
+        raise CaseTimeout()
+    import signal
     for drv, case in chunk:
+        limit = DRIVER_TIMEOUT.get(drv, CASE_TIMEOUT)
         try:
-            obs = DRIVERS[drv](case, _ctx)
+            old = signal.signal(signal.SIGALRM, _alarm)
+            signal.alarm(limit)
+            try:
+                obs = DRIVERS[drv](case, _ctx)
+            finally:
+                signal.alarm(0)
+                signal.signal(signal.SIGALRM, old)
             out.append((drv, case, obs, None))
+        except CaseTimeout:
+            # the call under test did not return (deadlock / endless loop): an observation, judged by clause "completes"
+            out.append((drv, case, {"crash": f"Timeout: no result within {limit} s", "where": "watchdog"}, None))
         except MachineryError:
             out.append((drv, case, None, traceback.format_exc()))
         except Exception as ex:
